@@ -487,8 +487,11 @@ fn is_bytes_like(dt: &FieldDataType) -> bool {
 
 /// (selector, index, width selector, flags) -> conformant V9 field
 fn v9_field(sel: u8, idx: u8, w: u8) -> FieldSpec {
-    let ie = if sel < 215 {
+    let ie = if sel < 130 {
         *pick(V9_KNOWN, idx)
+    } else if sel < 215 {
+        // any number of the library's table range (typed or not)
+        1 + (((idx as u16) << 8 | w as u16) % 300)
     } else {
         *pick(V9_UNKNOWN, idx)
     };
@@ -514,8 +517,11 @@ fn ipfix_field(sel: u8, idx: u8, w: u8, flags: u8) -> FieldSpec {
             ent: Some(*pick(ENTERPRISES, flags)),
         };
     }
-    let ie = if sel < 195 {
+    let ie = if sel < 120 {
         *pick(IPFIX_KNOWN, idx)
+    } else if sel < 195 {
+        // any element of the library's table range (typed or not)
+        1 + (((idx as u16) << 8 | flags as u16) % 520)
     } else {
         *pick(IPFIX_UNKNOWN, idx)
     };
@@ -607,7 +613,10 @@ pub fn pool(n_ids: std::ops::RangeInclusive<usize>, max_fields: usize, mixed_kin
                 (any::<u8>(), 1usize..=3).prop_flat_map(move |(k, alts)| {
                     let opt = k % 4 == 0;
                     let alt = move |j: usize| {
-                        let o = if mixed_kinds { (k as usize + j) % 3 == 0 } else { opt };
+                        // mixed: the kind of every alternative is drawn independently, so that
+                        // options -> options and plain -> plain redefinitions occur as well
+                        // as changes of kind
+                        let o = if mixed_kinds { (k >> (2 * j)) & 3 == 0 } else { opt };
                         if v9 {
                             v9_def(o, max_fields)
                         } else {
